@@ -167,8 +167,8 @@ def anchors():
 
 
 BUDGET_S = {   # estimated seconds of one TLC worker per type: (records without a long chain, records with one)
-    "quick": {"rsa": (110, 10), "dsa": (45, 25), "elgamal": (25, 0), "ws": (105, 35), "ed": (20, 75), "mt": (20, 75)},
-    "thorough": {"rsa": (1300, 300), "dsa": (350, 1300), "elgamal": (300, 0), "ws": (1400, 600), "ed": (250, 1400), "mt": (300, 1400)},
+    "quick": {"rsa": (90, 8), "dsa": (35, 20), "elgamal": (20, 0), "ws": (85, 25), "ed": (16, 60), "mt": (16, 60)},
+    "thorough": {"rsa": (1000, 250), "dsa": (300, 900), "elgamal": (250, 0), "ws": (1200, 450), "ed": (220, 1000), "mt": (260, 1000)},
 }
 SINGLE_SHARE = 0.7      # quick tier: the cases with at most one corruption may use this share of the budget of the records without a long chain
 HEAVY_MS = 1500
@@ -374,6 +374,8 @@ def pred_ok(pred, t):
 
 def flip(ls):
     """one bit of a number given as limbs (the lowest bit of the lowest limb; the number stays canonical unless it was 1)"""
+    if not ls:
+        return [1]
     return [ls[0] ^ (1 if len(ls) > 1 or ls[0] > 1 else 2)] + ls[1:]
 
 
@@ -460,19 +462,18 @@ def binding_checks(quick):
 HARNESS_OK = ("untrusted",)     # self-checks that falsify a witness: TLC must refuse the witness (a "harness:" clause), never accept the record
 
 
+BAD0 = 10 ** 7        # trace identifiers of the falsified copies of the binding self-checks
+
+
 def run(ctx):
     quick = ctx.tier == "quick"
     rnd = random.Random("%d/c05" % ctx.seed)
     t0 = time.time()
-    # 1. the pipeline on toy numbers, exhaustively; a weakened pipeline must be separated
+    # 1. the pipeline on toy numbers, exhaustively; a weakened pipeline must be separated (checked while the recorders run)
     r = ctx.mc("KeyPipelineMC", "KeyPipelineMC.cfg", workers=8, timeout=900)
     cases = [json.loads(s) for s in sorted(set(tlc.tla_string_to_py(p) for p in r.prints("CASE")))]
     if len(cases) < 25000:
         raise core.Machinery("KeyPipelineMC emitted only %d cases" % len(cases))
-    rw = ctx.mc("KeyPipelineMC", "KeyPipelineMC_weakened.cfg", workers=4, timeout=900, must_hold=False)
-    if "Sound" not in rw.violated:
-        raise core.Machinery("the KeyPipeline model does not separate a pipeline that forgets the range check of coordinates: %s" % rw.violated)
-    ctx.extra["weakened_pipeline_rejected_by_model"] = rw.violated
     ctx.extra["cases_from_model"] = len(cases)
     per_class = {}
     for c in cases:
@@ -480,93 +481,133 @@ def run(ctx):
         per_class[k] = per_class.get(k, 0) + 1
     ctx.extra["model_cases_per_type_and_class"] = dict(sorted(per_class.items()))
     _note(t0, "model: %d cases" % len(cases))
-    # 2. concretise and record: recorder processes side by side (generate() apart: ElGamal's safe-prime search and DSA's domain search take seconds)
+    # 2.-4. concretise, record, judge -- in rounds (the quick tier is one round; rounds bound the memory of the thorough tier: a record with two
+    # certified 1024-bit chains is megabytes of limbs).  Per round: recorder processes side by side (generate() apart: ElGamal's safe-prime search
+    # and DSA's domain search take seconds), then one sharded TLC batch.  The falsified copies of the binding self-checks are judged in the same
+    # batch: for every shape the first recorded record that fits is falsified before its verdict is known; should the original turn out not to be
+    # accepted, the shape is tried again in the next round (or, after the last round, in a small batch of its own)
     items, stats = plan_cases(cases, ctx, rnd)
     gens = plan_generate(ctx, rnd, len(items))
     ctx.extra["plan"] = stats
-    nproc = 12
-    slices = [[] for _ in range(nproc)]
-    for j, it in enumerate(sorted(items, key=lambda it: -it["est"])):
-        slices[j % nproc].append(it)
-    slow = [g for g in gens if g["what"] in ("elgamal", "dsa") or (g["what"] == "rsa" and g["bits"] > 2048)]
-    fast = [g for g in gens if g not in slow]
-    jobs = [("generate", {"items": [g]}) for g in slow] + [("generate", {"items": fast})] + [("cases", {"items": s}) for s in slices if s]
-    with ThreadPoolExecutor(max_workers=16) as ex:
-        parts = list(ex.map(lambda j: ctx.drive("c05_keys", [j[0]], inp=j[1], timeout=3000), jobs))
-    recs = [t for part in parts for t in part]
-    del parts
-    recs.sort(key=lambda t: t["cid"])
-    by_cid = {it["cid"]: it for it in items + gens}
-    ctx.extra["cases_not_expressible_in_their_format"] = len(items) + len(gens) - len(recs)
-    _note(t0, "recorded %d of %d items (%d generate requests)" % (len(recs), len(items) + len(gens), len(gens)))
-    # 3. TLC judges
-    verdicts = {}
-    batch = 3500
-    for b in range(0, len(recs), batch):
-        verdicts.update(ctx.validate("KeyTrace", recs[b:b + batch], family="keys (batch %d)" % (b // batch + 1), timeout=3400, weight=lambda t: t["cost"] + 80))
-    _note(t0, "judged %d records" % len(recs))
+    nrounds = 1 if quick else 6
     wanted = binding_checks(quick)
-    per, outcomes, disagree, classed, classed1, samples = {}, {}, [], 0, 0, {}
-    certified = 0
-    for t in recs:
-        ctx.count()
-        agrees, clause = verdicts[t["tid"]]
-        fam = family_of(t)
-        per[fam] = per.get(fam, 0) + 1
-        oc = "%s:%s" % (t["fam"] if t["fam"] != "ec" else t["kind"], "key" if t["exc"] == "none" else t["exc"])
-        outcomes[oc] = outcomes.get(oc, 0) + 1
-        certified += len(t.get("links", [])) + sum(len(t.get(w, {}).get(c, [])) for w in ("w", "kw") for c in ("cq", "cx"))
-        ctx.nontriv(identity(t))
-        if t["fam"] != "gen" and t["cls"] in ("key", "ValueError"):
-            classed += 1
-            if agrees == 2:
-                disagree.append({"family": fam, "form": t["form"], "corruptions": t["corr"], "model": t["cls"], "model_failed_step": t["mwhy"], "outcome": t["exc"], "tlc_verdict": clause})
-        if clause != "ok":
-            if clause.startswith("harness:"):
-                raise core.Machinery("recorder inconsistency: %s in %s" % (clause, json.dumps(brief(t))[:1500]))
-            ctx.violation(vkey(t, clause), dict(brief(t), clause=clause), replay=t)
-        for nm, pred in SAMPLES:
-            if nm not in samples and pred_ok(pred, t):
-                samples[nm] = dict(brief(t), tlc_verdict=clause)
-        if clause == "ok":
-            for w in wanted:
-                if w[3] is None and pred_ok(w[0], t):
-                    w[3] = copy.deepcopy(t)
+    results = []                                             # (family, verdict of the original, verdict of the falsified copy)
+    per, outcomes, disagree, samples = {}, {}, [], {}
+    seen_keys = set()
+    counts = {"classed": 0, "certified": 0, "recorded": 0, "requested": 0, "generated": set()}
+    weak = None
+    for rd in range(nrounds):
+        mine = [it for it in items if (0 if it.get("anchor") else it["cid"] % nrounds) == rd]
+        nproc = 12
+        slices = [[] for _ in range(nproc)]
+        for j, it in enumerate(sorted(mine, key=lambda it: -it["est"])):
+            slices[j % nproc].append(it)
+        jobs = [("cases", {"items": sl}) for sl in slices if sl]
+        if rd == 0:
+            slow = [g for g in gens if g["what"] in ("elgamal", "dsa") or (g["what"] == "rsa" and g["bits"] > 2048)]
+            fast = [g for g in gens if g not in slow]
+            jobs = [("generate", {"items": [g]}) for g in slow] + [("generate", {"items": fast})] + jobs
+        with ThreadPoolExecutor(max_workers=len(jobs) + 1) as ex:
+            if rd == 0:
+                weak = ex.submit(lambda: ctx.mc("KeyPipelineMC", "KeyPipelineMC_weakened.cfg", workers=2, timeout=900, must_hold=False))
+            parts = list(ex.map(lambda j: ctx.drive("c05_keys", [j[0]], inp=j[1], timeout=3400), jobs))
+        if rd == 0:
+            rw = weak.result()
+            if "Sound" not in rw.violated:
+                raise core.Machinery("the KeyPipeline model does not separate a pipeline that forgets the range check of coordinates: %s" % rw.violated)
+            ctx.extra["weakened_pipeline_rejected_by_model"] = rw.violated
+        recs = [t for part in parts for t in part]
+        del parts
+        recs.sort(key=lambda t: t["cid"])
+        counts["recorded"] += len(recs)
+        counts["requested"] += len(mine) + (len(gens) if rd == 0 else 0)
+        _note(t0, "round %d of %d: recorded %d of %d items" % (rd + 1, nrounds, len(recs), len(mine) + (len(gens) if rd == 0 else 0)))
+        bads = []
+        for i, w in enumerate(wanted):
+            if w[3] is None:
+                g = next((t for t in recs if pred_ok(w[0], t)), None)
+                if g is not None:
+                    bad = w[1](copy.deepcopy(g))
+                    bad["tid"] = BAD0 + i
+                    w[3] = (g, bad)
+                    bads.append(bad)
+        verdicts = ctx.validate("KeyTrace", recs + bads, family="keys (round %d of %d)" % (rd + 1, nrounds), timeout=3400, weight=lambda t: t["cost"] + 80)
+        ctx.traces_validated -= len(bads)                    # (not observations of the library)
+        _note(t0, "round %d of %d: judged %d records and %d falsified copies" % (rd + 1, nrounds, len(recs), len(bads)))
+        for t in recs:
+            ctx.count()
+            agrees, clause = verdicts[t["tid"]]
+            fam = family_of(t)
+            per[fam] = per.get(fam, 0) + 1
+            oc = "%s:%s" % (t["fam"] if t["fam"] != "ec" else t["kind"], "key" if t["exc"] == "none" else t["exc"])
+            outcomes[oc] = outcomes.get(oc, 0) + 1
+            counts["certified"] += len(t.get("links", [])) + sum(len(t.get(w, {}).get(c, [])) for w in ("w", "kw") for c in ("cq", "cx"))
+            ctx.nontriv(identity(t))
+            if t["fam"] == "gen" and t["exc"] == "none":
+                counts["generated"].add(t["what"])
+            if t["fam"] != "gen" and t["cls"] in ("key", "ValueError"):
+                counts["classed"] += 1
+                if agrees == 2:
+                    disagree.append({"family": fam, "form": t["form"], "corruptions": t["corr"], "model": t["cls"], "model_failed_step": t["mwhy"], "outcome": t["exc"],
+                                     "tlc_verdict": clause})
+            if clause != "ok":
+                if clause.startswith("harness:"):
+                    raise core.Machinery("recorder inconsistency: %s in %s" % (clause, json.dumps(brief(t))[:1500]))
+                k = vkey(t, clause)
+                ctx.violation(k, dict(brief(t), clause=clause), replay=t if k not in seen_keys else None)     # (one replay file per class)
+                seen_keys.add(k)
+            for nm, pred in SAMPLES:
+                if nm not in samples and pred_ok(pred, t):
+                    samples[nm] = dict(brief(t), tlc_verdict=clause)
+        # binding self-checks whose original was judged in this round
+        again = []
+        for i, w in enumerate(wanted):
+            if w[3] is None or w[3] == "done":
+                continue
+            g, bad = w[3]
+            family = w[2] % g if "%(" in w[2] else w[2]
+            if verdicts[g["tid"]][1] == "ok":
+                results.append((family, "ok", verdicts[BAD0 + i][1]))
+                w[3] = "done"
+                continue
+            w[3] = None                                      # the original is itself a violation: another record of the shape is needed
+            g = next((t for t in recs if verdicts[t["tid"]][1] == "ok" and pred_ok(w[0], t)), None)
+            if g is not None:
+                bad = w[1](copy.deepcopy(g))
+                bad["tid"] = BAD0 + i
+                again.append((i, w[2] % g if "%(" in w[2] else w[2], bad))
+        if again:
+            v, _ = tlc.validate_traces("KeyTrace", [bad for _, _, bad in again], shards=min(16, len(again)), timeout=1500, weight=lambda t: t["cost"] + 80)
+            for i, family, bad in again:
+                results.append((family, "ok", v[bad["tid"]][1]))
+                wanted[i][3] = "done"
+        del recs, verdicts, bads
+    ctx.extra["cases_not_expressible_in_their_format"] = counts["requested"] - counts["recorded"]
     ctx.extra["records_per_family"] = dict(sorted(per.items()))
     ctx.extra["outcomes_of_the_library"] = dict(sorted(outcomes.items()))
-    ctx.extra["links_of_certified_chains"] = certified
-    ctx.extra["model_class_not_carried_over"] = {"records_with_a_model_class": classed, "differing": len(disagree), "cases": disagree[:40]}
+    ctx.extra["links_of_certified_chains"] = counts["certified"]
+    ctx.extra["model_class_not_carried_over"] = {"records_with_a_model_class": counts["classed"], "differing": len(disagree), "cases": disagree[:40]}
     # the model's class must carry over to the real numbers, up to the coincidences of the toy numbers (named in trace/KeyTrace)
-    if len(disagree) > max(3, 0.02 * classed):
-        raise core.Machinery("the classes of the model do not carry over to real keys: %d of %d differ, e.g. %s" % (len(disagree), classed, json.dumps(disagree[:5])))
+    if len(disagree) > max(3, 0.02 * counts["classed"]):
+        raise core.Machinery("the classes of the model do not carry over to real keys: %d of %d differ, e.g. %s" % (len(disagree), counts["classed"], json.dumps(disagree[:5])))
     for nm, _ in SAMPLES:
         if nm in samples:
             ctx.sample(samples[nm])
     for what in ("rsa", "dsa", "elgamal", "ecc"):
-        if not any(t["fam"] == "gen" and t["what"] == what and t["exc"] == "none" for t in recs):
+        if what not in counts["generated"]:
             raise core.Machinery("generate() returned no %s key: nothing was judged" % what)
-    # 4. binding self-checks: a falsified returned component / outcome must be rejected by TLC (all pairs in one batch)
-    checks = []
-    for pred, corrupt, family, g in wanted:
-        if g is None:
+    for w in wanted:
+        if w[3] != "done":
             if ctx.violations:
-                ctx.notes.append("binding self-check '%s' skipped: no accepted record of that shape in a run with violations" % family)
+                ctx.notes.append("binding self-check '%s' skipped: no accepted record of that shape in a run with violations" % w[2])
                 continue
-            raise core.Machinery("no accepted record for the binding self-check '%s'" % family)
-        checks.append((g, corrupt, family % g if "%(" in family else family))
-    pairs = []
-    for i, (g, corrupt, family) in enumerate(checks):
-        good, bad = copy.deepcopy(g), corrupt(copy.deepcopy(g))
-        good["tid"], bad["tid"] = 2 * i + 1, 2 * i + 2
-        pairs += [good, bad]
-    v, _ = tlc.validate_traces("KeyTrace", pairs, shards=min(16, len(pairs)), timeout=1500, weight=lambda t: t["cost"] + 80)
-    for i, (g, corrupt, family) in enumerate(checks):
-        gv, bv = v[2 * i + 1][1], v[2 * i + 2][1]
+            raise core.Machinery("no accepted record for the binding self-check '%s'" % w[2])
+    for family, gv, bv in results:
         passed = gv == "ok" and bv != "ok" and (not bv.startswith("harness:") or any(h in family for h in HARNESS_OK))
         ctx.binding_checks.append({"family": family, "original": gv, "corrupted": bv, "ok": passed})
         if not passed:
             raise core.Machinery("binding self-check failed for %s: original=%r corrupted=%r" % (family, gv, bv))
-    _note(t0, "%d binding self-checks" % len(checks))
+    _note(t0, "%d binding self-checks" % len(results))
     ctx.rule = ("cases = the submitted states of sys/KeyPipeline enumerated by TLC (6 key types x toy keys x forms/formats x no, one or two ordered component corruptions), "
                 "concretised on real keys: RSA 512/768-bit fixed primes and a 1024-bit key generated per run (construct with 2, 3, 5, 6 components; PKCS#1, PKCS#8, "
                 "SubjectPublicKeyInfo, OpenSSH; DER and PEM), DSA domains of 24, 512, 1024, 2048 bits (construct; OpenSSL, PKCS#8, SPKI, OpenSSH), ElGamal 128/256-bit safe primes, "
